@@ -108,6 +108,26 @@ CHECKS = {
         design_ref="DESIGN.md section 7, C19",
         note="Compares the two builds with each other on TLC-enumerated inputs; agreement with the specification on valid inputs is C02.",
         technique="TLC-enumerated inputs replayed into two builds, outcome comparison"),
+    "C13": dict(
+        category="model_checking",
+        text="Lexer.tla holds a functional definition of X.680 clause 12 tokenization (LexSpec: positions, comment marking, grouping) and a "
+             "machine shaped like Tokenizer::parse (TokImpl). TLC checks for ALL strings up to length 4 (quick) / 6 (thorough) over an "
+             "11-symbol lexical alphabet plus all separator forms between all short contexts that both agree (tokens, order, line/column) "
+             "and that inserting any separator at any item boundary leaves the token sequence unchanged; a sharpness run with the fixed "
+             "defect re-enabled must fail. The real Tokenizer is replayed on every string. At module level TLC's simulation of the "
+             "printer machine draws layout plans applied to 38+ real modules: tokens, resolved model and token locations must be stable.",
+        design_ref="DESIGN.md section 7, C13",
+        note="'--' comments end at end of line (only that form is in the property's quantifier).",
+        technique="TLA+ lexer machine vs functional spec (TLC exhaustive over strings) + replay into the real tokenizer + simulated relayout plans"),
+    "C15": dict(
+        category="model_checking",
+        text="IntMap.tla over Big numbers defines the acceptable Rust integer types; TLC enumerates all ordered pairs of bounds of the 2^k "
+             "boundary family within i64 (x extensible, MIN/MAX forms), checks the design-level meaning (contains / narrowest / 64-bit) and "
+             "every constraint is pushed through the real front end at run time: wrapper type and value_min/value_max must match, a sample "
+             "also as SEQUENCE field, OPTIONAL field, CHOICE alternative and SEQUENCE OF element.",
+        design_ref="DESIGN.md section 7, C15",
+        note="Exhaustive over the stated family (quick: 27 exponents, thorough: all 63). Open finding (MIN lower bound) is modelled exactly.",
+        technique="TLA+ type-selection model enumerated by TLC, compared with the real generator output"),
 }
 
 NOT_APPLICABLE = {}
